@@ -1703,7 +1703,10 @@ impl Vm {
         // An uncaught error ends the active fiber and every fiber waiting for it.
         let mut next = self.fiber.as_ref().map(|fiber| fiber.as_gc());
         while let Some(fiber) = next {
-            self.forget_abandoned_modules(fiber, 0);
+            // (The outermost frame of the outermost fiber is the program that was run, under whatever
+            // module name the embedding gave it: not a module that was being imported.)
+            let is_outermost = fiber.borrow().caller.is_none();
+            self.forget_abandoned_modules(fiber, if is_outermost { 1 } else { 0 });
             let mut borrowed_fiber = fiber.borrow_mut();
             // Closures created by the discarded frames may outlive them.
             borrowed_fiber.close_upvalues(0);
